@@ -70,8 +70,8 @@ def run(F, rep, tier):
     for n, s in sorted(touching.items()):
         b = F.bodies[n]
         crate = b["_crate"].split(".")[0]
-        if crate == "dmntk_feel_parser":
-            continue
+        if crate == "dmntk_feel_parser" or n in prims:
+            continue              # (the methods of Scope are the primitives themselves, classified above)
         is_eval_closure = n in G.deferred
         is_immediate = b["kind"] == "closure" and not is_eval_closure
         is_api = b.get("vis") == "pub" and b["kind"] != "closure"
@@ -104,7 +104,7 @@ def run(F, rep, tier):
     rep.analysed["scope_passing_edges_at_entry_depth"] = len([s for s in sites if s[2] <= 0])
     nw = 0
     for n, s in sorted(touching.items()):
-        if F.bodies[n]["_crate"].startswith("dmntk_feel_parser"):
+        if F.bodies[n]["_crate"].startswith("dmntk_feel_parser") or n in prims:
             continue
         if not s.writes0:
             continue
